@@ -850,7 +850,15 @@ fn main() {
                 Err(e) => die(&format!("conformance replay of {} failed: {e}", todo[i as usize])),
             }
         },
-        None::<mcx::sweep::NoPanic>,
+        // A panic of the code under test while the real evaluation runs is a violation with the same
+        // fingerprint the exploration gives it (a harness panic stays a machinery error).
+        Some(|i: u64, c: &mcx::panics::Caught| {
+            Violation::new(
+                format!("C07/panic@{}", c.site()),
+                format!("panic while the history is applied / evaluated from real commits: {} ({}:{})", c.message, c.file, c.line),
+                json!({"history": serde_json::from_str::<Value>(&todo[i as usize]).unwrap_or(Value::Null), "detail": {"panic": c.message, "file": c.file, "where": "conformance replay"}}),
+            )
+        }),
     );
 
     let mut cov = res.coverage(
@@ -860,13 +868,15 @@ fn main() {
          Deviation = action the statement's role table does not authorise. A state = canonical JSON of the object (ids by creation order, timelines dropped) + the model's object table; distinct = distinct canonical states",
     );
     cov.insert("conformance_replays".into(), json!(st.evaluations));
+    cov.insert("conformance_outcomes".into(), json!(st.outcomes));
     cov.insert("conformance_stride".into(), json!(if stride > 0 { format!("1 in {stride} of all executed histories (by hash): {stride_n}; plus violating witnesses, seeds and samples") } else { "violating witnesses, seeds and deepest samples".to_string() }));
     cov.insert("config".into(), json!({"depth_including_start": depth, "deviations": devs, "max_new_objects": max_new}));
     let unauth: u64 = res.outcomes.iter().filter(|(k, _)| k.contains("UNAUTHORISED")).map(|(_, v)| *v).sum();
     let unknown_ignored: u64 = res.outcomes.iter().filter(|(k, _)| k.contains("UNAUTHORISED:ok+same")).map(|(_, v)| *v).sum();
     cov.insert("unauthorised_steps".into(), json!(unauth));
     cov.insert("unauthorised_steps_accepted_without_effect".into(), json!(unknown_ignored));
-    let violations = std::mem::take(&mut res.violations);
+    let mut violations = std::mem::take(&mut res.violations);
+    violations.merge(st.violations.clone());
     cleanup();
     ctx.finish(
         cov,
